@@ -501,11 +501,16 @@ def k_params(L, c, R):
         R.outc('unclassified by the reference'); return
     R.outc('%s %s %s' % (scheme, c.get('pert', '?').split(':')[0], 'stays valid' if exp else 'invalid'))
     if (code == ERR_OK) != exp:
-        R.bad('%s:%s:%s' % (VALFN[scheme], 'invalid-accepted' if code == ERR_OK else 'valid-rejected', c.get('pert', '?')), dict(c),
+        R.bad('%s:%s:%s' % (VALFN[scheme], 'invalid-accepted' if code == ERR_OK else 'valid-rejected', c.get('pert', '?').split(':')[0]), dict(c),
               '%s(%s with %s) = %d [%s], reference validator: %s %s' % (VALFN[scheme], c.get('name', ''), c.get('pert', ''), code, L.cfg,
                                                                      'valid' if exp else 'invalid', '(' + note + ')' if note else ''))
     elif code not in (ERR_OK, BAD_PARAMS):
         R.outc('rejected with a code other than ERR_BAD_PARAMS: %d' % code)
+
+def k_batch(L, c, R):
+    """several cases of one standard set in one job (the reference's primality results are memoised per process)"""
+    for sub in c['cases']:
+        KINDS[sub['kind']](L, dict(sub, cfg=c['cfg']), R)
 
 def big_fields(scheme, D0):
     """[(field, used octets)] of the multi-octet number fields in struct order"""
@@ -686,8 +691,15 @@ def k_bignkey(L, c, R):
         R.bad('%s:%s' % (fn, cls), dict(c), '%s(l=%d, %s%s) = %d [%s], expected %d (%s)' % (
             fn, l, 'd=%s, ' % hex(int(c['d'])) if c['what'] != 'pubkey' else '', 'Q=(%s, %s)' % (hex(x), hex(y)), code, L.cfg, exp, c.get('label', '')))
 
+_DSTU_FULL = {}
 def dstu_full(name):
     """reference standard set with a base point (table value or generated by 6.8 from a filler tape)"""
+    if name not in _DSTU_FULL:
+        _DSTU_FULL[name] = _dstu_full(name)
+    P, tape = _DSTU_FULL[name]
+    return dict(P), tape
+
+def _dstu_full(name):
     P = RD.params_std(name)
     no = (P['p'][0] + 7) // 8
     tape = vf.filler('C12/dstu/' + name, 64 * no, seed=1)
@@ -843,7 +855,7 @@ def k_gen(L, c, R):
 KINDS = {'date2_all': k_date2_all, 'date2': k_date2, 'date_range': k_date_range, 'isprimew': k_isprimew, 'nextprimew': k_nextprimew,
          'nextprime': k_nextprime, 'sieved': k_sieved, 'smooth': k_sieved, 'primeval': k_primeval, 'isprime_range': k_isprime_range, 'carm': k_carm,
          'irred': k_irred, 'irred_big': k_irred_big, 'bels_std': k_bels_std, 'std': k_std, 'params': k_params, 'bignkey': k_bignkey,
-         'dstupoint': k_dstupoint, 'pfokkey': k_pfokkey, 'seed': k_seed, 'gen': k_gen}
+         'dstupoint': k_dstupoint, 'pfokkey': k_pfokkey, 'seed': k_seed, 'gen': k_gen, 'batch': k_batch}
 
 def run_case(c):
     L = common.lib(c['cfg'])
@@ -1033,7 +1045,7 @@ def date_jobs(tier, cfg):
         J.append(dict(cfg=cfg, part='tmDateIsValid', kind='date_range', y0=y0, y1=y0 + n - 1, m0=0, m1=13, d0=0, d1=32))
     for y0, y1 in ((0, 5), (2395, 2405), (9995, 10005), ((1 << 32) - 3, (1 << 32) + 5), ((1 << 64) - 12, (1 << 64) - 2)):
         J.append(dict(cfg=cfg, part='tmDateIsValid', kind='date_range', y0=y0, y1=y1, m0=0, m1=13, d0=0, d1=32))
-    for big in ((1 << 32) + 1, (1 << 64) - 1, 256 + 2):
+    for big in ((1 << 32) + 1, (1 << 64) - 2, 256 + 2):     # (the helper's loop bound is inclusive: 2^64-1 is not usable)
         J.append(dict(cfg=cfg, part='tmDateIsValid', kind='date_range', y0=2000, y1=2004, m0=big, m1=big, d0=0, d1=32))
         J.append(dict(cfg=cfg, part='tmDateIsValid', kind='date_range', y0=2000, y1=2004, m0=0, m1=13, d0=big, d1=big))
     return J
@@ -1107,6 +1119,21 @@ def expand(spec):
             add('ppIsIrred deg %d' % l, kind='irred_big', polys=['%x' % f for f in prods[i:i + 4]], cls='product of irreducibles')
         xk = [std0 << k for k in (1, 7)] + [irreducibles(l - k, 1)[0] << k for k in (1, 2, 8, l // 2)] + [1 << l, (1 << l) | 1, (1 << l) | 2]
         add('ppIsIrred deg %d' % l, kind='irred_big', polys=['%x' % f for f in xk], cls='x^k multiple')
+    if what in ('params', 'dstupoints', 'pfokkeys', 'seeds', 'bignkeys'):
+        B = {}
+        for j in J:
+            if j['kind'] == 'gen' or (j['kind'] == 'dstupoint' and j['what'] == 'gen'):
+                B.setdefault(('single', len(B)), []).append(j)
+            else:
+                B.setdefault(j['part'], []).append(j)
+        size = {'params': 8, 'dstupoints': 6, 'pfokkeys': 12, 'seeds': 64, 'bignkeys': 16}[what]
+        out = []
+        for part, js in B.items():
+            if part[0] == 'single':
+                out += js; continue
+            for i in range(0, len(js), size):
+                out.append(dict(cfg=cfg, part=part, kind='batch', cases=[{k: v for k, v in j.items() if k not in ('cfg', 'part')} for j in js[i:i + size]]))
+        return out
     return J
 
 # ================================================================== run
